@@ -628,20 +628,18 @@ namespace Dune
     {
       DUNE_ASSERT_BOUNDS(M.rows() == M.cols());
       DUNE_ASSERT_BOUNDS(M.rows() == rows());
-      if (static_cast<const void*>(&M) == static_cast<const void*>(this)) {
-        // M is this matrix itself: multiply with a copy, the loop below overwrites the entries it reads from M
-        const AutonomousValue<MAT> Mcopy(asImp());
-        return leftmultiply(Mcopy);
-      }
+      // accumulate into an autonomous copy and assign it back: neither *this nor M is written while it is read
+      // (M may be *this itself, or a view of the same storage)
       AutonomousValue<MAT> C(asImp());
 
       for (size_type i=0; i<rows(); i++)
         for (size_type j=0; j<cols(); j++) {
-          (*this)[i][j] = 0;
+          C[i][j] = 0;
           for (size_type k=0; k<rows(); k++)
-            (*this)[i][j] += M[i][k]*C[k][j];
+            C[i][j] += M[i][k]*(*this)[k][j];
         }
 
+      asImp() = C;
       return asImp();
     }
 
@@ -651,19 +649,17 @@ namespace Dune
     {
       DUNE_ASSERT_BOUNDS(M.rows() == M.cols());
       DUNE_ASSERT_BOUNDS(M.cols() == cols());
-      if (static_cast<const void*>(&M) == static_cast<const void*>(this)) {
-        // M is this matrix itself: multiply with a copy, the loop below overwrites the entries it reads from M
-        const AutonomousValue<MAT> Mcopy(asImp());
-        return rightmultiply(Mcopy);
-      }
+      // accumulate into an autonomous copy and assign it back (see leftmultiply)
       AutonomousValue<MAT> C(asImp());
 
       for (size_type i=0; i<rows(); i++)
         for (size_type j=0; j<cols(); j++) {
-          (*this)[i][j] = 0;
+          C[i][j] = 0;
           for (size_type k=0; k<cols(); k++)
-            (*this)[i][j] += C[i][k]*M[k][j];
+            C[i][j] += (*this)[i][k]*M[k][j];
         }
+
+      asImp() = C;
       return asImp();
     }
 
